@@ -491,6 +491,16 @@ fn u512_new_q() {
     cover!(c1[3] == u64::MAX && c1[0] == u64::MAX, "large c1");
 }
 
+// the same helper with only the code's own checks as the property (overflow checks, debug_assert!(!carry)):
+// no dev-profile panic for any c1 < 2^256, c0 < m
+fn u512_new_nopanic() {
+    let c1 = any4();
+    let c0 = any_below(&Q);
+    let got = u512_limbs(&U512::new(&U256::from(c1), &U256::from(c0), &U256::from(Q)));
+    // the low limb is fully determined by the low limbs (cheap sanity that the value is used)
+    assert!(got[0] == c1[0].wrapping_mul(Q[0]).wrapping_add(c0[0]), "low limb of c1*m + c0");
+}
+
 macro_rules! std_stubs { () => {} }
 
 harnesses! { registry;
@@ -577,6 +587,10 @@ harnesses! { registry;
     #[kani::stub(core::arch::x86_64::_addcarry_u64, addcarry_stub)]
     #[kani::stub(core::arch::x86_64::_subborrow_u64, subborrow_stub)]
     fn k_u512_new_q() { u512_new_q() }
+    #[kani::unwind(66)]
+    #[kani::stub(core::arch::x86_64::_addcarry_u64, addcarry_stub)]
+    #[kani::stub(core::arch::x86_64::_subborrow_u64, subborrow_stub)]
+    fn k_u512_new_nopanic() { u512_new_nopanic() }
     #[kani::unwind(34)]
     #[kani::stub(core::arch::x86_64::_addcarry_u64, addcarry_stub)]
     #[kani::stub(core::arch::x86_64::_subborrow_u64, subborrow_stub)]
